@@ -52,6 +52,9 @@ fn run_replay(job: &Value) {
         if k == 1 { p.spaces = true; }
         p
     }).collect();
+    // eval_complex: one more assignment whose first literal is the bare imaginary unit (`i` directly before a bracket or a name)
+    let mut pols = pols;
+    if e == "cpx" && !allfns { pols.push(render::Policy::reveal(&e, 7)); }
     let mut phs = placeholder_pool(&e, full_ph);
     if job["cpx_generic"].as_bool().unwrap_or(false) && e == "cpx" {
         // generic complex operands: both parts non-zero, moderate magnitude (C08)
@@ -409,6 +412,13 @@ fn main() {
                 let mut out = open_out(&job, profile_name());
                 let mut rng = Rng(job["seed"].as_u64().unwrap_or(1).wrapping_mul(0x9E3779B97F4A7C15) ^ 0x5EED);
                 functions::near_miss_names(&mut out, &v, job["e"].as_str().unwrap(), &mut rng, job["n"].as_u64().unwrap_or(500) as usize);
+                out.heartbeat(u64::MAX);
+                write_stats(&job, &mut out, true);
+            }
+            "chains" => {
+                let mut out = open_out(&job, profile_name());
+                let mut rng = Rng(job["seed"].as_u64().unwrap_or(1).wrapping_mul(0x9E3779B97F4A7C15) ^ 0xC4A1);
+                engine::long_chains(&mut out, job["e"].as_str().unwrap(), &mut rng, job["n"].as_u64().unwrap_or(300) as usize);
                 out.heartbeat(u64::MAX);
                 write_stats(&job, &mut out, true);
             }
